@@ -150,6 +150,25 @@ def check_constructed(ctx, case):
         cg = B.ggm_expand(M)
         if np.max(np.abs(cg - c)) > 1e-10:
             probs.append(('ggm_expand differs from expand', float(np.max(np.abs(cg - c)))))
+    # every call of a constructor returns an object of its own: whatever a caller did to an earlier
+    # basis of the same kind and dimension (scaled it in place, overwrote an element) does not show
+    # in the next one, nor in a basis completed from a partial set or in a pulse's default basis
+    make = (lambda: ff.Basis.pauli(n)) if kind == 'pauli' else (lambda: ff.Basis.ggm(n))
+    old = make()
+    old *= 2.0
+    old[-1] = 0
+    try:
+        new = make()
+        g2, _, r2 = basis_props(new)
+        if g2 > 1e-12 or r2 != d*d:
+            probs.append(('a basis modified in place shows in the next constructed one', float(g2)))
+        part = ff.Basis.from_partial(np.asarray(b)[1:2].copy(), traceless=True)
+        g3, _, r3 = basis_props(part)
+        if g3 > 1e-10 or r3 != d*d:
+            probs.append(('a basis modified in place shows in a later from_partial', float(g3)))
+    finally:
+        old[-1] = np.asarray(b)[-1]
+        old /= 2.0
     ctx.count((kind, n), nontrivial=True)
     if probs:
         ctx.fail('constructed_basis', case, probs, 'complete orthonormal Hermitian basis', {},
